@@ -1,0 +1,68 @@
+//go:build verif
+
+package parser
+
+// Contracts for govc (contract-based deductive verification). Comment-only: this file
+// contributes no declarations and is compiled only with -tags verif.
+
+// ---- bounded recursion of the parser (C10, C04): no source text can drive the parser's
+// ---- recursion - and with it the goroutine stack, whose overflow is fatal - without bound.
+// The argument has four parts. (1) structural: every cycle of the package's call graph passes
+// through a guard function (recursion-guarded scan). (2) structural: Parser.depth is touched only
+// by parseExpr and the enterNested/leaveNested pair (fields-confined), and the pair is used only
+// as `defer p.leaveNested()` followed by one `p.enterNested()` at function entry (defer-pair), so
+// p.depth counts the guard frames that are active. (3) the contracts below: entering counts one
+// level and fails beyond maxParseDepth; a guard function reaches the statement after its guard -
+// and with it every recursive call - only if the count is within the limit. (4) the two
+// precedence-climbing functions recurse directly, with a variant that decreases (recdecreases).
+
+//@ func (*Parser).enterNested
+//@   strict
+//@   mathint
+//@   requires p != nil
+//@   modifies p.depth
+//@   ensures p.depth == old(p.depth) + 1
+//@   ensures result == nil <==> p.depth <= maxParseDepth
+//@ func (*Parser).leaveNested
+//@   strict
+//@   mathint
+//@   requires p != nil
+//@   modifies p.depth
+//@   ensures p.depth == old(p.depth) - 1
+
+//@ func (*Parser).parseExpr
+//@   mathint
+//@   requires p != nil
+//@   callpre (*parser.Parser).parsePipeExpr arg0 == p && p.depth == old(p.depth) + 1 && p.depth <= maxParseDepth
+//@ func (*Parser).parseStatement
+//@   requires p != nil
+//@   assertat "switch p.current().Type {" p.depth == old(p.depth) + 1 && p.depth <= maxParseDepth
+//@ func (*Parser).parseIfStatement
+//@   requires p != nil
+//@   assertat "_, err := p.expectIdent()" p.depth == old(p.depth) + 1 && p.depth <= maxParseDepth
+//@ func (*Parser).parseUnary
+//@   requires p != nil
+//@   assertat "if p.check(BANG) {" p.depth == old(p.depth) + 1 && p.depth <= maxParseDepth
+//@ func (*Parser).parsePattern
+//@   requires p != nil
+//@   assertat "switch p.current().Type {" p.depth == old(p.depth) + 1 && p.depth <= maxParseDepth
+//@ func (*Parser).parseSingleType
+//@   requires p != nil
+//@   assertat "if p.check(LPAREN) {" p.depth == old(p.depth) + 1 && p.depth <= maxParseDepth
+//@ func (*Parser).parseTypeWithContext
+//@   requires p != nil
+//@   assertat "if p.check(LPAREN) {" p.depth == old(p.depth) + 1 && p.depth <= maxParseDepth
+
+// precedence climbing: the right operand is parsed one precedence level up; levels end at 20
+//@ func (*Parser).currentBinaryOp
+//@   requires p != nil
+//@   ensures result1 <= 20
+//@ func (*Parser).currentCommandDefaultBinaryOp
+//@   requires p != nil
+//@   ensures result1 <= 20
+//@ func (*Parser).parseBinaryExpr
+//@   requires p != nil
+//@   recdecreases 22 - minPrecedence
+//@ func (*Parser).parseCommandDefaultBinaryExpr
+//@   requires p != nil
+//@   recdecreases 22 - minPrecedence
